@@ -1,5 +1,6 @@
 import Spine.RegistryMore
 import Spine.Bind
+import Spine.BindSchedLin
 /-!
 # C09 — bindings: exact registry with at most one binding per server feature
 
@@ -21,7 +22,13 @@ member, in the region named by `c09_delete_partial`. Merged only lightly: the ev
 family `Reg` (the schedule theorems speak about abstract server / client ids); the bridge is `c09_halves` (AddBinding
 = check half ; insert half) with the witness restated in the family (`c09_at_most_one_refuted_family`). For the
 repaired operation — one critical section — every interleaving of requests is a sequential history, which is what
-`c09_at_most_one` quantifies over with the real role / type checks. Events are monitored by the harness only.
+`c09_at_most_one` quantifies over with the real role / type checks — since the deepening round a THEOREM: the event
+model `Spine.BindSched` splits the repaired `AddBinding` at its program points (start: server lookup and check; look:
+client lookup, check and the id draw outside the lock; commit: the one region of c.mux) over the state of the family
+`Spine.Reg`; `c09_at_most_one_schedules_family`, `c09_ids_never_reused` hold for every event list of every member,
+`c09_linearisable` proves every event list over static trees equivalent (registry up to ids, and answers) to the
+sequential history of its linearisation points, `c09_granted_iff_schedules` is the grant clause at the commit point.
+Events are monitored by the harness only.
 -/
 namespace Spine.Props.C09
 open Spine
@@ -119,6 +126,94 @@ theorem c09_at_most_one_schedules (evs : List Bind.Ev) (hr : ∀ e ∈ evs, Bind
 example : (Bind.run [.atomicAdd 7 100, .atomicAdd 7 200, .atomicAdd 8 200]).entries = [⟨1, 7, 100⟩, ⟨2, 8, 200⟩] := by
   decide
 
+/-! ### the schedule clause inside the registry family (real role / type checks, any number of peers) -/
+
+/-- the world of the examples below: requests 1 (peer 1) and 2 (peer 2, identical numbering) for the same free server
+    feature [1]/1, request 3 (peer 1, Generic client) for [1]/2, request 4 with a server of the wrong type -/
+def r1 : BindSched.Req := ⟨1, [1], 1, [1], 1, 1⟩
+def r2 : BindSched.Req := ⟨2, [1], 1, [1], 1, 1⟩
+def r3 : BindSched.Req := ⟨1, [1], 3, [1], 2, 2⟩
+def r4 : BindSched.Req := ⟨2, [1], 1, [1], 2, 1⟩
+/-- both requests for [1]/1 pass their checks and draw their ids before either commits; 2 commits first -/
+def sched : List BindSched.Ev :=
+  [.start 1 r1, .start 2 r2, .start 3 r3, .start 4 r4, .look 1, .look 2, .commit 2, .look 3, .commit 1, .commit 3,
+   .op (.unbind 2 0 [1] 1 [1] 1), .start 5 r1, .look 5, .commit 5]
+
+/-- Every member of the family, EVERY event list — any number of binding requests of any number of peers with
+    identical numbering, each split at the program points of the repaired `AddBinding` (server check | client check and
+    id draw | the one exclusive region with scan and append), interleaved in any order with each other and with any
+    other registry call, entity removals included: at no time does a local server feature have more than one binding.
+    (`c09_at_most_one_schedules` with the real lookups, roles and types.) -/
+theorem c09_at_most_one_schedules_family (c : Reg.Cfg) (loc : List Reg.Feat) (rem : Nat → List Reg.Feat)
+    (evs : List BindSched.Ev) : Reg.AtMostOne (BindSched.run c loc rem evs).reg :=
+  BindSched.run_atMostOne c loc rem evs
+
+/-- non-vacuity: the schedule in which both requests for [1]/1 are past their checks before either commits leaves one
+    binding there (the later commit is refused), with the id drawn SECOND registered FIRST -/
+example : (BindSched.run {} loc rem sched).reg.binds = [⟨3, [1], 2, 1, [1], 3⟩, ⟨4, [1], 1, 1, [1], 1⟩] ∧
+    (BindSched.run {} loc rem (sched.take 9)).reg.binds = [⟨2, [1], 1, 2, [1], 1⟩] := by
+  decide
+
+/-- Every member, every event list: the ids of the registered bindings and the ids drawn by requests still in flight
+    are pairwise distinct and were all drawn from the counter — an id is never used twice, whatever was deleted,
+    refused after drawing, or torn down in between (ids are drawn outside the lock, in `look` order). -/
+theorem c09_ids_never_reused (c : Reg.Cfg) (loc : List Reg.Feat) (rem : Nat → List Reg.Feat) (evs : List BindSched.Ev) :
+    (BindSched.allIds (BindSched.run c loc rem evs)).Nodup ∧
+    ∀ x ∈ BindSched.allIds (BindSched.run c loc rem evs), x ≤ (BindSched.run c loc rem evs).reg.bindNum :=
+  ⟨(BindSched.run_idInv c loc rem evs).nodup, (BindSched.run_idInv c loc rem evs).bound⟩
+
+example : BindSched.allIds (BindSched.run {} loc rem (sched.take 7)) = [2, 1] ∧
+    BindSched.allIds (BindSched.run {} loc rem sched) = [3, 4] := by decide
+
+/-- LINEARISABILITY (the bridge between the event model and the family, now a theorem): every member, every event list
+    over static announced trees (no entity removal / featureless re-announcement among the interleaved calls): the
+    registry afterwards equals the registry of the SEQUENTIAL history `Reg.run` of the list's linearisation points —
+    same trees, same subscriptions, same bindings up to ids — and the answers of the requests, in the order in which
+    they end, are the answers of those sequential calls. Every theorem about sequential histories (`c09_granted_iff`,
+    `c09_at_most_one`, `c09_delete_exact`, …) therefore speaks about every interleaving. -/
+theorem c09_linearisable (c : Reg.Cfg) (loc : List Reg.Feat) (rem : Nat → List Reg.Feat) (evs : List BindSched.Ev)
+    (hs : ∀ e ∈ evs, e.static = true) :
+    BindSched.KeyEq (BindSched.run c loc rem evs).reg (Reg.run c loc rem (BindSched.trace c (BindSched.init loc rem) evs)) ∧
+    BindSched.outcomes c (BindSched.init loc rem) evs =
+      BindSched.seqOutcomes c { loc := loc, rem := rem } (BindSched.trace c (BindSched.init loc rem) evs) :=
+  BindSched.linearisable c loc rem evs hs
+
+/-- non-vacuity: the sequential history of the example schedule (request 4 ends at its server check, request 2 commits
+    before request 1) and the answers -/
+example : (BindSched.trace {} (BindSched.init loc rem) sched).length = 6 ∧
+    (Reg.run {} loc rem (BindSched.trace {} (BindSched.init loc rem) sched)).binds =
+      [⟨2, [1], 2, 1, [1], 3⟩, ⟨3, [1], 1, 1, [1], 1⟩] ∧
+    BindSched.outcomes {} (BindSched.init loc rem) sched = [false, true, false, true, true] ∧
+    sched.all (·.static) = true := by decide
+
+/-- The grant clause at the linearisation point, every state reachable or not: a request that reaches `commit` (server
+    and client checks passed) is granted exactly when the server feature has no binding at that moment, and then
+    exactly its binding is appended. -/
+theorem c09_granted_iff_schedules (s : BindSched.St) (k : Nat) (x : Nat × BindSched.Req × Nat)
+    (hx : s.looked.find? (·.1 = k) = some x) :
+    BindSched.outcome s (.commit k) = some (Reg.onServer s.reg x.2.1.sEnt x.2.1.sFeat).isEmpty ∧
+    (BindSched.commitStep s k).reg.binds =
+      if (Reg.onServer s.reg x.2.1.sEnt x.2.1.sFeat).isEmpty then s.reg.binds ++ [BindSched.entryOf x.2.2 x.2.1]
+      else s.reg.binds := by
+  obtain ⟨k', r, id⟩ := x
+  have hb : BindSched.bound s.reg r = !(Reg.onServer s.reg r.sEnt r.sFeat).isEmpty := by
+    simp only [BindSched.bound, Reg.onServer]
+    cases h : s.reg.binds.any (fun e => decide (e.sEnt = r.sEnt) && decide (e.sFeat = r.sFeat))
+    · have : s.reg.binds.filter (fun e => decide (e.sEnt = r.sEnt) && decide (e.sFeat = r.sFeat)) = [] :=
+        List.filter_eq_nil_iff.mpr (fun e he => by have := List.any_eq_false.mp h e he; simpa using this)
+      rw [this]; rfl
+    · obtain ⟨e, he, hp⟩ := List.any_eq_true.mp h
+      have hne : s.reg.binds.filter (fun e => decide (e.sEnt = r.sEnt) && decide (e.sFeat = r.sFeat)) ≠ [] :=
+        fun hn => by have := List.filter_eq_nil_iff.mp hn e he; exact this hp
+      cases hl : s.reg.binds.filter (fun e => decide (e.sEnt = r.sEnt) && decide (e.sFeat = r.sFeat)) with
+      | nil => exact absurd hl hne
+      | cons _ _ => rfl
+  simp only [BindSched.outcome, BindSched.commitStep, hx, hb]
+  cases (Reg.onServer s.reg r.sEnt r.sFeat).isEmpty <;> simp
+
+example : BindSched.outcome (BindSched.run {} loc rem (sched.take 8)) (.commit 1) = some false ∧
+    BindSched.outcome (BindSched.run {} loc rem (sched.take 6)) (.commit 2) = some true := by decide
+
 /-! ## clause 3: a delete removes exactly the addressed binding and leaves every other binding in place -/
 
 /-- Repaired (`delBindByDevice`, `unbindDisjunct` off): a binding delete removes exactly the addressed binding of the
@@ -143,6 +238,30 @@ theorem c09_delete_result (s : Reg.St) (p cDev : Nat) (cEnt : List Nat) (cFeat :
       (∃ sv, Reg.findF s.loc sEnt sFeat = some sv ∧ (sv.role = .special ∨ sv.role = .server)) ∧
       (cDev = 0 ∨ cDev = p) ∧ s.binds.any (·.is p cEnt cFeat sEnt sFeat) = true :=
   Reg.c09_delete_result s p cDev cEnt cFeat sEnt sFeat
+
+/-- FRAME, repaired member, every state: whatever delete is asked by whomever, every binding other than the addressed
+    triple (requesting connection, client feature, server feature) stays — the same client's bindings to other server
+    features, and bindings of OTHER PEERS even when their client and server addresses are identical to the addressed
+    ones in every part but the connection. -/
+theorem c09_delete_frame (s : Reg.St) (p cDev : Nat) (cEnt : List Nat) (cFeat : Nat) (sEnt : List Nat) (sFeat : Nat)
+    (e : Reg.Entry) (he : e ∈ s.binds) (hne : e.is p cEnt cFeat sEnt sFeat = false) :
+    e ∈ (Reg.delBind Reg.Cfg.clean s p cDev cEnt cFeat sEnt sFeat).1.binds := by
+  rcases Reg.c09_delete_exact s p cDev cEnt cFeat sEnt sFeat with h | h
+  · rw [h]; exact he
+  · rw [h]; exact List.mem_filter.mpr ⟨he, by simp [hne]⟩
+
+/-- … and nothing is ever added by a delete. -/
+theorem c09_delete_adds_nothing (c : Reg.Cfg) (s : Reg.St) (p cDev : Nat) (cEnt : List Nat) (cFeat : Nat)
+    (sEnt : List Nat) (sFeat : Nat) : (Reg.delBind c s p cDev cEnt cFeat sEnt sFeat).1.binds.Sublist s.binds :=
+  (Reg.delBind_shape c s p cDev cEnt cFeat sEnt sFeat).1
+
+/-- non-vacuity (a state not reachable through requests, to show the frame is about the triple, not about
+    reachability): peers 1 and 2 hold bindings with IDENTICAL client and server addresses; peer 1's delete removes its
+    own and keeps peer 2's -/
+example :
+    let s : Reg.St := { loc := loc, rem := rem, binds := [⟨1, [1], 1, 1, [1], 1⟩, ⟨2, [1], 1, 2, [1], 1⟩, ⟨3, [1], 2, 1, [1], 1⟩] }
+    (Reg.delBind Reg.Cfg.clean s 1 0 [1] 1 [1] 1).1.binds.map Reg.key = [(2, [1], 1, [1], 1), (1, [1], 1, [1], 2)] := by
+  decide
 
 /-- non-vacuity: the client bound to two servers keeps its other binding, the other peer keeps its own -/
 example :
